@@ -40,6 +40,9 @@ def impl_call(case):
         r = run_integrators(len(case['ibeg']), case['ibeg'], case['iend'], [O.fl(x) for x in case['avflux']],
                             [O.fl(x) for x in case['deltaw']])
         return {'ok': r}
+    if op in ('bin_edges', 'bin_widths'):      # the edge helper itself, on centres in either order (C18's machinery)
+        from . import c18
+        return c18.impl_call(case)
     return obs_call(case)
 
 
@@ -97,7 +100,7 @@ def obs_call(case):
 
 
 def model_case(case):
-    if case['op'] == 'calcbinflux':
+    if case['op'] in ('calcbinflux', 'bin_edges', 'bin_widths'):
         return case
     c = {k: v for k, v in case.items() if not k.startswith('_') and k not in ('binset_in', 'binset_unit')}
     c.update({k: v for k, v in PAR.items() if k not in c})
@@ -107,6 +110,8 @@ def model_case(case):
 
 
 def compare(case, o, m):
+    if case['op'] in ('bin_edges', 'bin_widths'):
+        return same(o, m, rtol=1e-9)
     if case['op'] == 'calcbinflux':
         r = o['ok']
         # the model's C loop against every compiled build, its NumPy form against the fallback
@@ -136,6 +141,10 @@ def c07_zero_band(case):
 
 
 def oracle(rep, case, out):
+    if case['op'] in ('bin_edges', 'bin_widths'):
+        from . import c18
+        c18.oracle_helpers(rep, case, out)
+        return
     if case['op'] == 'calcbinflux':
         r = out['ok']
         consistent = all(b <= e for b, e in zip(case['ibeg'], case['iend']))
@@ -395,6 +404,8 @@ def run(rep):
     fresh = [finish_case(c, rng) for c in fresh]
     cases += fresh
     cases += [gen_calc(rng, 60 if thorough else 12) for _ in range(40000 if thorough else 1500)]
+    from . import c18
+    cases += [c for c in c18.gen_helpers(rng, 4000 if thorough else 400, 12) if c['op'] != 'bin_centers']
     rep.rule = ('observations (table / constant / box / trapezoid sources x table / box bandpasses) with default, uniform, random, '
                 'finer-than-native, coarser, partly-outside, descending, nm and Hz binsets of 2..N centres; every calcbinflux call of the '
                 'constructor is intercepted and replayed on the in-tree extension, the extension rebuilt from the C source with -O0 and '
